@@ -15,7 +15,7 @@
      gspec / stable / struct_program_correct   every jaxpr over a table of such kernels lowers to a graph computing the
                     JAX value;  rtree / gtree / sp_tree / sp_jax / sp_onnx: what the harness evaluates (tie S and ties D). *)
 From Coq Require Import String List Bool Arith Lia ZArith PeanoNat.
-From J2O Require Import PyLib Dtype Tensor Batch Reshape Graph Lowering LoweringSem OnnxInt Kernels Lift LiftProg LiftReduce.
+From J2O Require Import PyLib Dtype Tensor Batch Reshape Graph Lowering LoweringSem OnnxInt Kernels Lift LiftProg LiftReduce LiftCall.
 Import ListNotations.
 
 (* ================================================================ abstract kernels *)
@@ -279,7 +279,7 @@ Proof.
 Qed.
 
 (* ---- integer reductions over axes (LiftReduce): the reducing functions on the row-major list of reduced elements *)
-Inductive rkind := RSum | RProd | RMax | RMin.
+Inductive rkind := RSum | RProd | RMax | RMin | RArgMax | RArgMin.
 Definition lz (l : list sval) : list Z := map (prj SZ) l.
 Definition lb (l : list sval) : list bool := map (prj SB) l.
 Definition sred_onnx (rk : rkind) (sb : ity) (l : list sval) : sval :=
@@ -288,6 +288,8 @@ Definition sred_onnx (rk : rkind) (sb : ity) (l : list sval) : sval :=
   | RProd => VZ (o_reduce_prod sb (lz l))
   | RMax => VZ (match o_reduce_max (lz l) with Some v => v | None => 0%Z end)
   | RMin => VZ (match o_reduce_min (lz l) with Some v => v | None => 0%Z end)
+  | RArgMax => VZ (Z.of_nat (o_argmax (lz l)))
+  | RArgMin => VZ (Z.of_nat (o_argmin (lz l)))
   end.
 Definition sred_jax (rk : rkind) (sb : ity) (l : list sval) : sval :=
   match rk with
@@ -295,6 +297,8 @@ Definition sred_jax (rk : rkind) (sb : ity) (l : list sval) : sval :=
   | RProd => VZ (jax_reduce_prod sb (lz l))
   | RMax => VZ (match jax_reduce_max (lz l) with Some v => v | None => 0%Z end)
   | RMin => VZ (match jax_reduce_min (lz l) with Some v => v | None => 0%Z end)
+  | RArgMax => VZ (Z.of_nat (jax_argmax (lz l)))
+  | RArgMin => VZ (Z.of_nat (jax_argmin (lz l)))
   end.
 (* max / min of an empty set is undefined in both systems; sums / products in a type of width 0 are meaningless *)
 Definition red_ok (rk : rkind) (sb : ity) (mask : list bool) (s : list nat) : bool :=
@@ -303,12 +307,16 @@ Definition red_ok (rk : rkind) (sb : ity) (mask : list bool) (s : list nat) : bo
   | RSum => (0 <? snd sb)%Z
   | RProd => (1 <? snd sb)%Z
   | RMax | RMin => match all_idx (red_shape mask s) with [] => false | _ => true end
+  | RArgMax | RArgMin =>                                   (* ONNX ArgMax / ArgMin reduce exactly one axis *)
+      Nat.eqb (length (filter (fun b : bool => b) mask)) 1 && match all_idx (red_shape mask s) with [] => false | _ => true end
   end.
 Definition rname (rk : rkind) : string :=
-  match rk with RSum => "ReduceSum" | RProd => "ReduceProd" | RMax => "ReduceMax" | RMin => "ReduceMin" end%string.
+  match rk with RSum => "ReduceSum" | RProd => "ReduceProd" | RMax => "ReduceMax" | RMin => "ReduceMin"
+              | RArgMax => "ArgMax" | RArgMin => "ArgMin" end%string.
 Definition rkind_of (op : string) : option rkind :=
   if String.eqb op "ReduceSum" then Some RSum else if String.eqb op "ReduceProd" then Some RProd
-  else if String.eqb op "ReduceMax" then Some RMax else if String.eqb op "ReduceMin" then Some RMin else None.
+  else if String.eqb op "ReduceMax" then Some RMax else if String.eqb op "ReduceMin" then Some RMin
+  else if String.eqb op "ArgMax" then Some RArgMax else if String.eqb op "ArgMin" then Some RArgMin else None.
 Definition enc_mask (mask : list bool) : list nat := map (fun b : bool => if b then 1 else 0) mask.
 Definition dec_mask (l : list nat) : list bool := map (Nat.eqb 1) l.
 Lemma dec_enc_mask mask : dec_mask (enc_mask mask) = mask.
@@ -321,6 +329,8 @@ Proof.
   - apply Z.ltb_lt in H. now rewrite reduce_prod_correct.
   - reflexivity.
   - reflexivity.
+  - destruct (lz l) as [|x r] eqn:E; [reflexivity|]. rewrite argmax_correct by discriminate. reflexivity.
+  - destruct (lz l) as [|x r] eqn:E; [reflexivity|]. rewrite argmin_correct by discriminate. reflexivity.
 Qed.
 
 (* ================================================================ concatenate and (strided) slice *)
@@ -793,6 +803,81 @@ Proof.
     split; [intros m Hm; rewrite !upd_other by lia; apply Hfr; lia|].
     split; [rewrite upd_same; now rewrite HT2|]. intro y. simpl. lia.
 Qed.
+(* a reduction, then an elementwise cast of its result:  o2 (Reduce x)  — ArgMax / ArgMin (int64) cast to the index type *)
+Definition gk_rc (rk : rkind) (sbr : ity) (o2 : oop) (mask : list bool) (J : list sval -> sval) (D : list nat -> bool) : gkern :=
+  mkG 1 (fun args next =>
+           ([mkNode (rname rk) (enc_red sbr mask) args [] [next];
+             mkNode (oname o2) (enc_op o2) [next] [] [S next]], S next, S (S next)))
+      (fun Xs => match Xs with
+                 | [a] => if red_ok rk sbr mask (c_shape a) && D (c_shape a) then Some (tcanon (treduce J mask (decanon a))) else None
+                 | _ => None end).
+Lemma gk_rc_ok rk sbr o2 mask J D :
+  oarity o2 = 1 -> osb_ok o2 -> (0 <= snd sbr)%Z ->
+  (forall s l, red_ok rk sbr mask s = true -> D s = true -> length l = length (all_idx (red_shape mask s)) ->
+               sem1 o2 (sred_onnx rk sbr l) = J l) ->
+  sgkern_ok (gk_rc rk sbr o2 mask J D).
+Proof.
+  intros Ha2 Hs2 Hb Hlaw args next nodes res next' g Xs out Hem Hl Hla Hargs Hfr Hf. simpl in *. injection Hem as <- <- <-.
+  destruct Xs as [|a [|? ?]]; try discriminate. destruct args as [|x [|? ?]]; try discriminate.
+  destruct (red_ok rk sbr mask (c_shape a) && D (c_shape a)) eqn:Ec; [|discriminate]. injection Hf as <-.
+  apply andb_prop in Ec as [Hok HD].
+  destruct (Hargs 0 ltac:(simpl; lia)) as [Hx Hgx]. simpl in Hx, Hgx.
+  set (T1 := tcanon (treduce (sred_onnx rk sbr) mask (decanon a))).
+  set (T2 := tcanon (tmap (sem1 o2) (decanon T1))).
+  assert (HT2 : T2 = tcanon (treduce J mask (decanon a))).
+  { unfold T2. apply canon_teq. eapply teq_trans; [apply tmap_teq; unfold T1; apply decanon_canon|].
+    split; [reflexivity|]. intros idx Hi. cbn [tmap treduce at_ shape] in *.
+    apply (Hlaw (c_shape a)); [exact Hok | exact HD|]. unfold red_elems. now rewrite map_length. }
+  exists (upd cten (upd cten g next T1) (S next) T2). split.
+  - rewrite eval_cons_s.
+    assert (Hst1 : step cten ssem g (mkNode (rname rk) (enc_red sbr mask) [x] [] [next]) = Some (upd cten g next T1)).
+    { unfold step, n_uses; simpl. rewrite Hgx. rewrite ssem_reduce by exact Hb. rewrite Hok. reflexivity. }
+    match goal with |- match ?St with _ => _ end = _ => replace St with (Some (upd cten g next T1)) by (symmetry; exact Hst1) end.
+    rewrite eval_cons_s.
+    match goal with |- match ?St with _ => _ end = _ =>
+      replace St with (Some (upd cten (upd cten g next T1) (S next) T2))
+        by (symmetry; apply (step_node1 ssem ssem_op _ o2); [exact Hs2 | exact Ha2 | apply upd_same]) end.
+    reflexivity.
+  - split; [lia|]. split; [intros m Hm; rewrite !upd_other by lia; reflexivity|].
+    split; [intros m Hm; rewrite !upd_other by lia; apply Hfr; lia|].
+    split; [rewrite upd_same; now rewrite HT2|]. intro y. simpl. lia.
+Qed.
+(* lax.argmax / argmin, jnp.argmax / argmin (one axis, first index on ties): ArgMax / ArgMin then Cast to the index type;
+   exact while the extent of the axis fits the index type *)
+Definition arg_fits (sbi : ity) (mask : list bool) (s : list nat) : bool :=
+  (0 <? snd sbi)%Z && (Z.of_nat (length (all_idx (red_shape mask s))) - 1 <=? int_hi sbi)%Z.
+Definition gk_arg (rk : rkind) (sbi : ity) (mask : list bool) : gkern :=
+  gk_rc rk (true, 64%Z) (OCast sbi) mask (sred_jax rk (true, 64%Z)) (arg_fits sbi mask).
+Lemma arg_index_lt (f : list Z -> nat) (l : list Z) : (forall l', l' <> [] -> (f l' < length l')%nat) -> l <> [] -> (f l < length l)%nat.
+Proof. auto. Qed.
+Lemma gk_arg_ok rk sbi mask : (rk = RArgMax \/ rk = RArgMin) -> (0 <= snd sbi)%Z -> sgkern_ok (gk_arg rk sbi mask).
+Proof.
+  intros Hrk Hb0. apply gk_rc_ok; try reflexivity; try exact Hb0; try (simpl; lia).
+  intros s l Hok HD Hlen. unfold arg_fits in HD. apply andb_prop in HD as [Hb Hfit]. apply Z.ltb_lt in Hb. apply Z.leb_le in Hfit.
+  rewrite <- Hlen in Hfit.
+  rewrite (sred_correct rk (true, 64%Z) mask s l Hok).
+  assert (Hlt : forall i : nat, (i < length l)%nat \/ (i = 0%nat) -> sem1 (OCast sbi) (VZ (Z.of_nat i)) = VZ (Z.of_nat i)).
+  { intros i Hi. cbn [sem1]. unfold lift1. change (inj SZ) with VZ. cbn [prj]. f_equal. unfold o_cast. apply wrap_id; [exact Hb|].
+    unfold in_int. split.
+    - destruct sbi as [[|] b]; unfold int_lo; simpl in *; [|lia]. assert (0 < 2 ^ (b - 1))%Z by (apply Z.pow_pos_nonneg; lia). lia.
+    - assert (0 <= int_hi sbi)%Z.
+      { destruct sbi as [[|] b]; unfold int_hi; simpl in *; [assert (0 < 2 ^ (b - 1))%Z by (apply Z.pow_pos_nonneg; lia) | assert (0 < 2 ^ b)%Z by (apply Z.pow_pos_nonneg; lia)]; lia. }
+      destruct Hi as [Hi | ->]; lia. }
+  assert (Hlz : length (lz l) = length l) by (unfold lz; now rewrite map_length).
+  destruct Hrk as [-> | ->]; cbn [sred_jax]; apply Hlt.
+  - destruct (lz l) as [|x r] eqn:E; [right; reflexivity|]. left. rewrite <- Hlz.
+    exact (proj1 (jax_argmax_spec (x :: r) ltac:(discriminate))).
+  - destruct (lz l) as [|x r] eqn:E; [right; reflexivity|]. left. rewrite <- Hlz.
+    rewrite jax_argmin_opp. pose proof (proj1 (jax_argmax_spec (map Z.opp (x :: r)) ltac:(discriminate))) as H. now rewrite map_length in H.
+Qed.
+(* index type int64: the plugin keeps the int64 result (ArgMax / ArgMin then Identity) *)
+Definition gk_arg_id (rk : rkind) (mask : list bool) : gkern :=
+  gk_rc rk (true, 64%Z) OIdentity mask (sred_jax rk (true, 64%Z)) (fun _ => true).
+Lemma gk_arg_id_ok rk mask : (rk = RArgMax \/ rk = RArgMin) -> sgkern_ok (gk_arg_id rk mask).
+Proof.
+  intros Hrk. apply gk_rc_ok; try reflexivity; try exact I; try (simpl; lia).
+  intros s l Hok _ _. rewrite (sred_correct rk (true, 64%Z) mask s l Hok). destruct Hrk as [-> | ->]; reflexivity.
+Qed.
 Lemma lz_map_cast sbw l : lz (map (sem1 (OCast sbw)) l) = map (o_cast sbw) (lz l).
 Proof. unfold lz. rewrite !map_map. apply map_ext. intro v. reflexivity. Qed.
 (* integer operand: Cast(sbw) -> ReduceSum / ReduceProd in sbw;  JAX: the sum / product of the operand in sbw *)
@@ -1081,6 +1166,8 @@ Inductive gspec :=
 | GReduceMax32 (sb : ity) (mask : list bool) | GReduceMin32 (sb : ity) (mask : list bool)   (* through an int32 work type *)
 | GReduceCast (rk : rkind) (sbw : ity) (mask : list bool)      (* jnp.sum / jnp.prod of small integers, in the promoted type *)
 | GReduceCastB (rk : rkind) (sbw : ity) (mask : list bool)     (* ... of booleans *)
+| GArg (rk : rkind) (sbi : ity) (mask : list bool)            (* argmax / argmin over one axis, index type sbi *)
+| GArgId (rk : rkind) (mask : list bool)                        (* ... index type int64 *)
 | GReduceAnd (mask : list bool) | GReduceOr (mask : list bool)
 | GConcat (n axis : nat)
 | GSlice (starts limits strides : list nat)
@@ -1103,6 +1190,10 @@ Definition gk_of (s : gspec) : option gkern :=
                             | RSum | RProd => if (0 <=? snd sbw)%Z then Some (gk_reduce_cast rk sbw m) else None
                             | _ => None end
   | GReduceCastB rk sbw m => if (0 <=? snd sbw)%Z then Some (gk_reduce_cast_bool rk sbw m) else None
+  | GArg rk sbi m => match rk with
+                     | RArgMax | RArgMin => if (0 <=? snd sbi)%Z then Some (gk_arg rk sbi m) else None
+                     | _ => None end
+  | GArgId rk m => match rk with RArgMax | RArgMin => Some (gk_arg_id rk m) | _ => None end
   | GReduceAnd m => Some (gk_reduce_and m)
   | GReduceOr m => Some (gk_reduce_or m)
   | GConcat n ax => Some (gk_concat n ax)
@@ -1129,6 +1220,9 @@ Proof.
   - destruct rk; try discriminate; (destruct (0 <=? snd sbw)%Z eqn:E; [|discriminate]); injection H as <-;
       apply gk_reduce_cast_ok; try (now apply Z.leb_le); [now left | now right].
   - destruct (0 <=? snd sbw)%Z eqn:E; [|discriminate]. injection H as <-. apply gk_reduce_cast_bool_ok. now apply Z.leb_le.
+  - destruct rk; try discriminate; (destruct (0 <=? snd sbi)%Z eqn:E; [|discriminate]); injection H as <-;
+      apply gk_arg_ok; try (now apply Z.leb_le); [now left | now right].
+  - destruct rk; try discriminate; injection H as <-; apply gk_arg_id_ok; [now left | now right].
   - apply gk_reduce_and_ok.
   - apply gk_reduce_or_ok.
   - apply gk_concat_ok.
@@ -1265,3 +1359,41 @@ Example sx_sp : sp_tree sx_tab sx_prog 2 5 = Some (gtree_of (ROp2 (OAdd I32) (RO
   /\ opt_cten_is (sp_onnx sx_tab sx_prog [sx_cx; sx_cy] 5) (mkC [2; 3] (map VZ [4; 15; -23; 0; 5; -1]%Z)) = true.
 Proof. vm_compute. repeat split. Qed.
 
+
+(* ================================================================ traced programs WITH nested jit (LiftCall) *)
+(* the registry / JAX semantics of a table of primitives extended by the calls of the program, innermost first *)
+Definition nsem (l : list (string * gspec)) (cs : list (string * call)) := ext_all cten (gpsem (stable l)) (greg (stable l)) slit cs.
+Theorem struct_nested_program_correct l cs :
+  forall jp s s', slower_jaxpr (snd (nsem l cs)) s jp = Ok s' ->
+  forall r g r', related cten s r g -> jeval cten (fst (nsem l cs)) slit jp r = Some r' ->
+  exists new g', s_nodes s' = s_nodes s ++ new /\ sgeval new g = Some g' /\ genv_le cten g g' /\ related cten s' r' g'.
+Proof. exact (nested_program_correct cten ssem cs _ _ slit (struct_registry_meets_plugin_contract l)). Qed.
+(* what the harness evaluates for a program whose jit bodies are NOT flattened *)
+Definition spn_tree l cs (prog : jaxpr) (nin out : nat) : option gtree :=
+  match slower_jaxpr (snd (nsem l cs)) (sp_s0 nin) prog with
+  | Ok s' => match bound (erase s') out with Some o => Some (tree_of_nodes nin (s_nodes s') o) | None => None end
+  | Err _ => None
+  end.
+Definition spn_jax l cs (prog : jaxpr) (ins : list cten) (out : nat) : option cten :=
+  match jeval cten (fst (nsem l cs)) slit prog (sp_env ins) with Some r' => r' out | None => None end.
+Definition spn_onnx l cs (prog : jaxpr) (ins : list cten) (out : nat) : option cten :=
+  match slower_jaxpr (snd (nsem l cs)) (sp_s0 (length ins)) prog with
+  | Ok s' => match sgeval (s_nodes s') (sp_env ins), bound (erase s') out with Some g', Some o => g' o | _, _ => None end
+  | Err _ => None
+  end.
+(* non-vacuity:  jit(lambda a, b: a * 2 + b)(x, y) - x   with the body kept as a call *)
+Local Open Scope string_scope.
+Definition nx_tab : list (string * gspec) :=
+  [("lit2", GConst (VZ 2%Z)); ("mul:int32", GElem "mul:int32"); ("add:int32", GElem "add:int32"); ("sub:int32", GElem "sub:int32")].
+Definition nx_calls : list (string * call) :=
+  [("call#0", mkCall [mkEqn "lit2" [] [Some 2]; mkEqn "mul:int32" [IVar 0; IVar 2] [Some 3]; mkEqn "add:int32" [IVar 3; IVar 1] [Some 4]] [0; 1] 4)].
+Definition nx_prog : jaxpr := [mkEqn "call#0" [IVar 0; IVar 1] [Some 2]; mkEqn "sub:int32" [IVar 2; IVar 0] [Some 3]].
+Example nx_sp :
+  spn_tree nx_tab nx_calls nx_prog 2 3
+    = Some (gtree_of (ROp2 (OSub I32) (ROp2 (OAdd I32) (ROp2 (OMul I32) (RIn 0) (RConst (VZ 2%Z))) (RIn 1)) (RIn 0)))
+  /\ opt_cten_is (spn_jax nx_tab nx_calls nx_prog [sx_cx; mkC [2; 3] (map VZ [1; 1; 1; 1; 1; 1]%Z)] 3)
+                 (mkC [2; 3] (map VZ [2; 6; -6; -2147483648; 1; 5]%Z)) = true
+  /\ opt_cten_is (spn_onnx nx_tab nx_calls nx_prog [sx_cx; mkC [2; 3] (map VZ [1; 1; 1; 1; 1; 1]%Z)] 3)
+                 (mkC [2; 3] (map VZ [2; 6; -6; -2147483648; 1; 5]%Z)) = true.
+Proof. vm_compute. repeat split. Qed.
+Local Close Scope string_scope.
